@@ -149,7 +149,7 @@ def normalise_code(text, fired):
                 if depth == 0:
                     break
             k -= 1
-        while k > 0 and re.match(r'[A-Za-z0-9_:]', m[k - 1]):
+        while k > 0 and re.match(r'[A-Za-z0-9_:.]', m[k - 1]):
             k -= 1
         q2 = text.find('"', mm.end())
         lit = text[mm.end() - 1:q2 + 1]
@@ -201,17 +201,45 @@ def normalise_code(text, fired):
 
 
 def n6_closure_patterns(text, fired):
-    """|(a, b)| BODY  ->  |p0| { let (a, b) = p0; BODY }   (BODY = expression up to the
-    matching close of the enclosing call).  Only tuple patterns without types."""
-    m = mask(text)
-    mm = re.search(r'\|\s*(\([A-Za-z0-9_,\s&]*\))\s*\|', m)
+    """|(a, b)| BODY  ->  |p0| { let (a, b) = p0; BODY }  and  |(a, b), (c, d)| BODY -> |p0, p1| { let (a, b) = p0; let (c, d) = p1; BODY }
+    (BODY = expression up to the matching close of the enclosing call).  Only tuple patterns without types."""
     guard = 0
-    while mm:
+    while True:
         guard += 1
         if guard > 50:
             raise GenError('N6 runaway')
-        pat = text[mm.start(1):mm.end(1)]
-        # body extent: from mm.end() to the closing ')' of the enclosing call
+        m = mask(text)
+        mm = re.search(r'(?<=\()\s*\|((?:\s*(?:\([A-Za-z0-9_,\s&]*\)|[a-z_][a-z0-9_]*)\s*,?)+)\|', m)
+        # find first closure header that contains at least one tuple pattern
+        found = None
+        for mm in re.finditer(r'\|((?:\s*(?:\([A-Za-z0-9_,\s&]*\)|[a-z_][a-z0-9_]*)\s*,?)+)\|', m):
+            if '(' in mm.group(1) and m[:mm.start()].rstrip().endswith('('):
+                found = mm
+                break
+        if not found:
+            return text
+        mm = found
+        params_txt = text[mm.start(1):mm.end(1)]
+        params, depth, cur = [], 0, ''
+        for ch in params_txt:
+            if ch == '(':
+                depth += 1
+            elif ch == ')':
+                depth -= 1
+            if ch == ',' and depth == 0:
+                params.append(cur.strip())
+                cur = ''
+            else:
+                cur += ch
+        if cur.strip():
+            params.append(cur.strip())
+        names, lets = [], []
+        for k, pth in enumerate(params):
+            if pth.startswith('('):
+                names.append('p%d' % k)
+                lets.append('let %s = p%d;' % (pth, k))
+            else:
+                names.append(pth)
         depth, k = 0, mm.end()
         while k < len(m):
             if m[k] in '([{':
@@ -222,12 +250,8 @@ def n6_closure_patterns(text, fired):
                 depth -= 1
             k += 1
         body = text[mm.end():k].strip()
-        # `&(a, b)` style patterns are not handled (refuse)
-        text = text[:mm.start()] + '|p0| { let %s = p0; %s }' % (pat, body) + text[k:]
+        text = text[:mm.start()] + '|%s| { %s %s }' % (', '.join(names), ' '.join(lets), body) + text[k:]
         fired['N6'] = fired.get('N6', 0) + 1
-        m = mask(text)
-        mm = re.search(r'\|\s*(\([A-Za-z0-9_,\s&]*\))\s*\|', m)
-    return text
 
 
 def n15_closure_contract(text, n, params, ret, lines, fired, qname):
@@ -352,7 +376,7 @@ def n10_string_plus_chain(body, fired):
             parts.append(tail[last:i].strip())
             last = i + 1
     parts.append(tail[last:].strip())
-    if len(parts) < 2 or not parts[0].endswith('.clone()'):
+    if len(parts) < 2 or not (parts[0].endswith('.clone()') or parts[0].endswith('.to_string()') or parts[0].startswith('str_concat(')):
         return body
     expr = parts[0]
     for p in parts[1:]:
@@ -438,6 +462,7 @@ class Gen:
         self.constvals = {}
         self.vac_fns = []
         self.consts_done = {}
+        self.constbytes = {}
         self.sharedprops = {}
 
     def emit(self, text, origin, fn=None):
@@ -638,11 +663,19 @@ class Gen:
         fired = {}
         decl2 = make_pub(decl, fired)
         decl2 = normalise_code(decl2, fired)
+        if ensures is None and re.search(r'=\s*[^;]*\(', mask(decl2)) and not re.search(r'=\s*[A-Za-z_][A-Za-z0-9_:]*\s*\{', mask(decl2)):
+            # initialiser calls exec functions (e.g. X.len()): N11 with the value computed by the const evaluator
+            mm0 = re.match(r'\s*pub\s+const\s+([A-Za-z0-9_]+)\s*:\s*(.*?)\s*=\s*(.*);\s*$', decl2, flags=re.S)
+            val = self.const_eval(mm0.group(3), re.sub(r'^impl\s*', '', impl_it.name)) if mm0 else None
+            if val is None:
+                raise GenError('N11: cannot evaluate the initialiser of const %s' % name)
+            ensures = '%s::%s == %d' % (re.sub(r'^impl\s*', '', impl_it.name), name, val)
         if ensures == 'BYTES':
             mm = re.match(r'(\s*pub\s+)const\s+([A-Za-z0-9_]+)\s*:\s*(.*?)\s*=\s*b"((?:[^"\\]|\\.)*)";\s*$', decl2, flags=re.S)
             if not mm:
                 raise GenError('N12: const %s is not a byte-string literal' % name)
             lit = mm.group(4)
+            self.constbytes[(re.sub(r'^impl\s*', '', impl_it.name), name)] = lit
             if '\\' in lit:
                 raise GenError('N12: escapes in byte string literal not supported')
             owner = re.sub(r'^impl\s*', '', impl_it.name)
@@ -663,10 +696,44 @@ class Gen:
             self.constvals[(owner_nm, name)] = int(mv.group(1))
         elif ensures is None and ml:
             self.constvals[(owner_nm, name)] = int(ml.group(1))
+        elif ensures is None:
+            mm1 = re.search(r'=\s*(.*);\s*$', decl, flags=re.S)
+            v1 = self.const_eval(mm1.group(1), owner_nm) if mm1 else None
+            if v1 is not None:
+                self.constvals[(owner_nm, name)] = v1
         for k, v in fired.items():
             self.fired[k] = self.fired.get(k, 0) + v
         self.items.append(('const', impl_it.name + '::' + name, src.path, sha(lead + decl), sha(decl2), sorted(fired)))
         self.emit(decl2.rstrip('\n'), ('src', src.path, line_of(src.text, it.decl_start)))
+
+    def const_eval(self, expr, owner):
+        """tiny constant evaluator for N11: integer literals, Owner::NAME, + - *, parentheses, `as T`,
+        BYTES.len(), BYTES[k].  Returns None when the expression is outside this subset."""
+        e = re.sub(r'\s+', ' ', expr.strip())
+        e = re.sub(r'\bas\s+(u8|u16|u32|u64|usize|i32|i64)\b', '', e)
+        e = re.sub(r'\bSelf::', owner + '::', e)
+
+        def bytes_len(mm):
+            key = (mm.group(1), mm.group(2))
+            return str(len(self.constbytes[key])) if key in self.constbytes else mm.group(0)
+
+        def bytes_idx(mm):
+            key = (mm.group(1), mm.group(2))
+            return str(ord(self.constbytes[key][int(mm.group(3))])) if key in self.constbytes else mm.group(0)
+
+        def look(mm):
+            key = (mm.group(1), mm.group(2))
+            return str(self.constvals[key]) if key in self.constvals else mm.group(0)
+        e = re.sub(r'([A-Za-z0-9_]+)::([A-Za-z0-9_]+)\.len\(\)', bytes_len, e)
+        e = re.sub(r'([A-Za-z0-9_]+)::([A-Za-z0-9_]+)\[(\d+)\]', bytes_idx, e)
+        e = re.sub(r'([A-Za-z0-9_]+)::([A-Za-z0-9_]+)', look, e)
+        e = re.sub(r'(\d)_(?=\d)', r'\1', e)
+        if not re.fullmatch(r'[0-9+\-*() ]+', e):
+            return None
+        try:
+            return int(eval(e, {'__builtins__': {}}, {}))
+        except Exception:
+            return None
 
     def do_from_u8(self, alias, name):
         """N7: trusted replacement of #[derive(FromPrimitive)] generated from the extracted enum."""
